@@ -1,7 +1,7 @@
 SPECIFICATION Spec
 CONSTANTS
  Depth = 6
- Tokens = {"*", "$", "-1", "0", "1", "2", "2147483648", "9223372036854775807", "x", "a", "CRLF", "CR", "LF", "SP", "PING", "A1", "B1"}
+ Tokens = {"*", "$", "-1", "0", "1", "2", "2147483648", "9223372036854775807", "x", "a", "CRLF", "CR", "LF", "SP", "PING", "A1", "B1", "A2", "B0", "-2", "H256M", "P70K"}
 VIEW view
 INVARIANT EmitCase
 CHECK_DEADLOCK FALSE
